@@ -773,6 +773,55 @@ func c10(c *Ctx) {
 	}
 	if !c.Quick() && os.Getenv("VERIF_C10_ONLY") == "" {
 		memory808(c)
+		buffers(c)
+		descriptors(c)
+	}
+}
+
+// buffers (thorough tier only): what cannot be parsed is buffered without bound.  A fresh server under an
+// address-space limit of 4 GiB serves a connection that sends 64 MB of such bytes, and dies of one that sends ~500 MB
+// (808: a stream that does not start with 7e is appended to historyData for ever; attachment: a chunk header announcing
+// 4 GiB makes stageStreamData wait for the data while connection.run appends every read).
+func buffers(c *Ctx) {
+	for _, kind := range []string{"808", "att"} {
+		ctl := "containbuf " + kind + " 4096 64"
+		control := RunOp(ctl)
+		c.Eval(ctl, false)
+		if !strings.Contains(control, "alive=1 first=1 served=1") {
+			c.Count(kind + "/buffer-control-failed")
+			c.Extra["buffer_control_"+kind] = Trunc(control, 400)
+			continue
+		}
+		req := "containbuf " + kind + " 4096 1200"
+		ans := RunOp(req)
+		c.Eval(req, true)
+		c.Count(kind + "/buffer")
+		if field(ans, "alive") != "1" || field(ans, "served") != "1" {
+			c.Violate(Violation{Signature: "C10/" + kind + "/unbounded-buffer",
+				What:  "one client ends the server process by sending bytes that are only buffered: the per-connection buffer has no bound",
+				Input: req, Observed: Trunc(ans, 900), Required: "ok alive=1 first=1 served=1 (the same server survives 64 MB of the same bytes)"})
+		}
+	}
+}
+
+// descriptors (thorough tier only): the attachment server never calls Close on an accepted socket - after a fatal
+// error connection.run returns and the descriptor is released by the garbage collector's finalizer once the client
+// has closed its end.  Under a limit of 64 descriptors, 1000 connections that send a fatal frame (or nothing) and are closed
+// by the client must not keep a new connection from being accepted and answered.
+func descriptors(c *Ctx) {
+	for _, req := range []string{"containfd att 64 1000 fatal", "containfd att 64 1000 empty", "containfd 808 64 1000 fatal"} {
+		ans := RunOp(req)
+		c.Eval(req, true)
+		c.Count("descriptors")
+		if field(ans, "first") != "1" {
+			c.Count("descriptor-control-failed")
+			continue
+		}
+		if field(ans, "alive") != "1" || field(ans, "served") != "1" {
+			c.Violate(Violation{Signature: "C10/descriptors",
+				What:  "after many short hostile connections a new connection is no longer accepted and answered (descriptors not released)",
+				Input: req, Observed: Trunc(ans, 600), Required: "ok alive=1 first=1 served=1"})
+		}
 	}
 }
 
